@@ -25,7 +25,9 @@ func TestSingleTermSweep(t *testing.T) {
 		from, to time.Time
 		value    func(time.Time) int
 	}
-	utc := func(y int, mo time.Month, d, h, mi, s int) time.Time { return time.Date(y, mo, d, h, mi, s, 0, time.UTC) }
+	utc := func(y int, mo time.Month, d, h, mi, s int) time.Time {
+		return time.Date(y, mo, d, h, mi, s, 0, time.UTC)
+	}
 	cycles := [6]cycle{
 		{utc(2021, 6, 15, 12, 34, 0), utc(2021, 6, 15, 12, 35, 0), func(x time.Time) int { return x.Second() }},
 		{utc(2021, 6, 15, 12, 0, 0), utc(2021, 6, 15, 13, 0, 0), func(x time.Time) int { return x.Minute() }},
